@@ -210,9 +210,10 @@ from pyvc.contracts import REG as _REG  # noqa: E402
 _REG.axiom_fns.append(_denotes_axioms)
 
 
-@contract(FN, "from_native", props=("C14", "C04", "C12", "C07"), group="substitutor")
+@contract(FN, "from_native", props=("C14", "C04", "C12", "C07", "C17"), group="substitutor")
 def _from_native(c):
     ct = c.ct
+    c.reproducible()
     x = c.sym("value")
     c.requires(S.deep_range(x), "float-repr")
     c.raises("ValueError", "DeclarationError", props=("C14", "C12"))
